@@ -9,6 +9,12 @@ Vals == -B..B
 Sels == { Sel("idx", a, 0) : a \in Vals } \cup { Sel("range", a, b) : a \in Vals, b \in Vals } \cup { Sel("from", a, 0) : a \in Vals }
         \cup { Sel("to", 0, b) : b \in Vals } \cup { Sel("incl", a, b) : a \in Vals, b \in Vals } \cup { Sel("toincl", 0, b) : b \in Vals } \cup { Sel("full", 0, 0) }
 Parents == { <<0, 0>>, <<0, 2>>, <<2, 0>>, <<1, 1>>, <<1, 3>>, <<2, 3>>, <<3, 3>>, <<4, 5>> }
+\* bounds of extreme magnitude (ViewBounds!PosInf / NegInf stand for any |value| >= 2^31; the harness
+\* instantiates them with u64::MAX, usize::MAX, i64::MAX and i64::MIN)
+Ext == {NegInf, -1, 0, 1, PosInf}
+ExtSels == { Sel("idx", a, 0) : a \in {NegInf, PosInf} } \cup { Sel("range", a, b) : a \in Ext, b \in {NegInf, PosInf} } \cup { Sel("range", a, b) : a \in {NegInf, PosInf}, b \in Ext }
+           \cup { Sel("from", a, 0) : a \in {NegInf, PosInf} } \cup { Sel("to", 0, b) : b \in {NegInf, PosInf} }
+           \cup { Sel("incl", a, b) : a \in Ext, b \in {NegInf, PosInf} } \cup { Sel("incl", a, b) : a \in {NegInf, PosInf}, b \in Ext } \cup { Sel("toincl", 0, b) : b \in {NegInf, PosInf} }
 Tr == [t |-> "tr", rs |-> Sel("full", 0, 0), cs |-> Sel("full", 0, 0)]
 Vw(rs, cs) == [t |-> "view", rs |-> rs, cs |-> cs]
 S1 == RandomSubset(Sample, Sels)
@@ -18,6 +24,7 @@ Chains == { <<s>> : s \in Steps1 } \cup { <<Tr>> } \cup { <<Tr, s>> : s \in Few 
           \cup { <<s1, s2>> : s1 \in Few, s2 \in Few }
           \cup { <<s1, Tr, s2>> : s1 \in RandomSubset(Sample \div 2, Steps1), s2 \in RandomSubset(Sample \div 2, Steps1) }
           \cup { <<Tr, s1, Tr>> : s1 \in Few }
+          \cup { <<Vw(e, Sel("full", 0, 0))>> : e \in ExtSels } \cup { <<Vw(Sel("from", 1, 0), e)>> : e \in ExtSels } \cup { <<Tr, Vw(e, Sel("to", 0, -1))>> : e \in ExtSels }
 Out == SetToSeq({ [hp |-> p[1], wp |-> p[2], chain |-> ch] : p \in Parents, ch \in Chains })
 ASSUME ndJsonSerialize(IOEnv.OUT, Out)
 ASSUME PrintT(<<"GENERATED", Len(Out)>>)
